@@ -38,7 +38,7 @@ UNIT = {
          "impl_header": "impl CompInfo", "impl_name": "CompInfo", "ret": "r",
          "subst": [("self.each_known_field_layout(ctx, |layout| {",
                     "let mut flc = KnownLayoutCursor::new(self, ctx); while flc.has_next() invariant " + ", ".join(IS_PACKED_INV) + " decreases flc.all().len() - flc.pos() { let layout = flc.next_item();", 1, "R16"),
-                   ("packed = packed || layout.align > parent_layout.align; });", "packed = packed || layout.align > parent_layout.align; }", 1, "R16")],
+                   ("});", "}", 1, "R16")],
          "ensures": [
              # property C02: a record is treated as packed exactly when the attribute says so, or its C layout
              # cannot be reproduced otherwise (a member more aligned than the record; a vtable in a 1-aligned record)
